@@ -390,11 +390,22 @@ def queue_sites(fb, owner_re):
     return out
 
 
-def check_queue_pairing(ctx, rule, sites, single_consumer_ok=None, single_producer_ok=None):
-    """documented pairing precondition: a side that sleeps on the futex must be woken by the other side"""
+def check_queue_pairing(ctx, rule, sites, single_consumer_ok=None, single_producer_ok=None, mode_of=None):
+    """documented pairing precondition: a side that sleeps on the futex must be woken by the other side.
+    mode_of(site) may name a run-time mode (sites of different named modes never meet on one queue object;
+    None = reachable in every mode)"""
     by_field = {}
+    modes = {}
     for s in sites:
-        by_field.setdefault(s["field"], []).append(s)
+        m = mode_of(s) if mode_of is not None else None
+        s["mode"] = m
+        if m is not None:
+            modes.setdefault(s["field"], set()).add(m)
+    for s in sites:
+        ms = [s["mode"]] if s["mode"] is not None else (sorted(modes.get(s["field"], [])) or [None])
+        for m in ms:
+            key = s["field"] if m is None else "%s[%s]" % (s["field"], m)
+            by_field.setdefault(key, []).append(s)
     for field, ss in sorted(by_field.items()):
         pushes = [s for s in ss if s["side"] == "push"]
         pops = [s for s in ss if s["side"] == "pop"]
@@ -556,3 +567,29 @@ def check_special_members(ctx, rule, fb, rec_re, exceptions=None):
                     (" / base(s) %s" % missing_b) if missing_b else ""),
                    site="%s@%s" % (name.replace("babylon::", ""), fn.kind if fn.kind != "method" else "swap"))
     return n
+
+
+def falls_off_end(fn):
+    """K10b: a function with a non-void result whose exit is reachable without passing a return
+    statement (undefined behaviour; compiles with a warning at most)"""
+    if fn.d.get("rtype", "void") in ("void", "") or fn.kind in ("ctor", "dtor", "move_ctor", "copy_ctor"):
+        return False
+    if fn.d.get("coroutine") or not fn.has_cfg():
+        return False
+    ig = IG(fn, inline=lambda a, b, c: False)
+    rets = [n for n in ig.ev_nodes() if n.ev["e"] == "ret"]
+    return ig.exit.id in ig.reach([ig.entry], removed=rets)
+
+
+def lambda_of(ig, desc):
+    """Fn of a lambda passed as argument (possibly wrapped in a conversion/construct event)"""
+    d = strip_cast(desc)
+    for _ in range(4):
+        if isinstance(d, dict) and d.get("k") == "lam":
+            return ig.tu.fns.get(d.get("fid")) if "fid" in d else None
+        n = ig.ev_of(d) if isinstance(d, dict) else None
+        if n is not None and n.ev.get("args"):
+            d = strip_cast(ig.rarg(n, 0))
+            continue
+        break
+    return None
